@@ -21,6 +21,8 @@ import (
 	"github.com/buildbarn/bb-remote-execution/pkg/filesystem/pool"
 	"github.com/buildbarn/bb-remote-execution/pkg/filesystem/virtual"
 	"github.com/buildbarn/bb-storage/pkg/filesystem/path"
+	"google.golang.org/grpc/codes"
+	"google.golang.org/grpc/status"
 	"pgregory.net/rapid"
 
 	"verif/harness/internal/simkit"
@@ -32,6 +34,7 @@ type ldParkingAllocator struct {
 	arm  bool
 	in   chan struct{} // closed when a NewFile call is parked
 	go_  chan struct{} // closed to release it
+	fail bool          // the parked call fails when released: the pinned directory stays empty
 }
 
 func (a *ldParkingAllocator) NewFile(holeSource pool.HoleSource, isExecutable bool, size uint64, shareAccess virtual.ShareMask) (virtual.LinkableLeaf, error) {
@@ -42,6 +45,9 @@ func (a *ldParkingAllocator) NewFile(holeSource pool.HoleSource, isExecutable bo
 	if armed {
 		close(a.in)
 		<-a.go_
+		if a.fail {
+			return nil, status.Error(codes.Internal, "injected failure of the pinning file creation")
+		}
 	}
 	return a.base.NewFile(holeSource, isExecutable, size, shareAccess)
 }
@@ -57,7 +63,11 @@ type ldCase struct {
 	Pinned   string    `json:"pinned"`
 	Op       string    `json:"op"`
 	Mutation string    `json:"mutation"`
-	Outcome  string    `json:"outcome,omitempty"`
+	// PinFails: the file creation that pins the child's lock fails when it
+	// is released, so the pinned directory is empty when the call under
+	// test finally gets its lock.
+	PinFails bool   `json:"pin_fails,omitempty"`
+	Outcome  string `json:"outcome,omitempty"`
 }
 
 func TestC13LockDropWindows(t *testing.T) {
@@ -81,12 +91,21 @@ func TestC13LockDropWindows(t *testing.T) {
 			dirs = []string{c.Entries[0].Name}
 		}
 		c.Pinned = rapid.SampledFrom(dirs).Draw(rt, "pinned")
-		c.Op = rapid.SampledFrom([]string{"readdir", "readdir", "lookup", "bulkRemove", "virtualRemove"}).Draw(rt, "op")
-		c.Mutation = rapid.SampledFrom([]string{"renamePinnedWithin", "renamePinnedOut", "removeSibling", "addSibling", "renameSibling", "replacePinned", "none"}).Draw(rt, "mutation")
+		c.Op = rapid.SampledFrom([]string{"readdir", "readdir", "lookup", "bulkRemove", "virtualRemove", "renameOntoPinned"}).Draw(rt, "op")
+		if c.Op == "renameOntoPinned" {
+			// The source of the rename: an empty directory "s" next to
+			// the pinned one.
+			c.Entries = append(c.Entries, ldEntry{Name: "s", Dir: true})
+		}
+		c.Mutation = rapid.SampledFrom([]string{"renamePinnedWithin", "renamePinnedOut", "removeSibling", "addSibling", "renameSibling", "replacePinned", "replacePinned", "none"}).Draw(rt, "mutation")
+		c.PinFails = rapid.Bool().Draw(rt, "pinFails")
+		if c.Op == "renameOntoPinned" {
+			c.Mutation = rapid.SampledFrom([]string{"removeSource", "removeSource", "renameSourceAway", "none"}).Draw(rt, "renameMutation")
+		}
 
 		// Build the tree: root/p/<entries>.
 		tree := newStTree(c.Handles)
-		alloc := &ldParkingAllocator{base: tree.files, in: make(chan struct{}), go_: make(chan struct{})}
+		alloc := &ldParkingAllocator{base: tree.files, in: make(chan struct{}), go_: make(chan struct{}), fail: c.PinFails}
 		setter := func(requested virtual.AttributesMask, attributes *virtual.Attributes) {}
 		tree.root.InstallHooks(alloc, virtual.NewHandleAllocatingSymlinkFactory(virtual.NewBaseSymlinkFactory(setter), virtual.NewFUSEHandleAllocator(&stRNG{}).New(), path.UNIXFormat), &stLogger{}, setter, virtual.NoNamedAttributesFactory)
 		p, err := tree.root.CreateAndEnterPrepopulatedDirectory(path.MustNewComponent("p"))
@@ -164,6 +183,10 @@ func TestC13LockDropWindows(t *testing.T) {
 				opErr = p.Remove(path.MustNewComponent(c.Pinned))
 			case "virtualRemove":
 				_, opStatus = p.VirtualRemove(ctx, path.MustNewComponent(c.Pinned), true, false)
+			case "renameOntoPinned":
+				// The target is a directory whose lock is busy: the call
+				// backs off after it has looked at the source.
+				_, _, opStatus = p.VirtualRename(ctx, path.MustNewComponent("s"), p, path.MustNewComponent(c.Pinned))
 			}
 		}()
 		time.Sleep(2 * time.Millisecond)
@@ -212,6 +235,16 @@ func TestC13LockDropWindows(t *testing.T) {
 					delete(after, sibling)
 					touched[sibling], touched["h"] = true, true
 				}
+			}
+		case "removeSource":
+			if _, s := p.VirtualRemove(ctx, path.MustNewComponent("s"), true, false); s == virtual.StatusOK {
+				delete(after, "s")
+				touched["s"] = true
+			}
+		case "renameSourceAway":
+			if _, _, s := p.VirtualRename(ctx, path.MustNewComponent("s"), tree.root, path.MustNewComponent("g")); s == virtual.StatusOK {
+				delete(after, "s")
+				touched["s"] = true
 			}
 		case "replacePinned":
 			if _, _, s := p.VirtualRename(ctx, path.MustNewComponent(c.Pinned), tree.root, path.MustNewComponent("g")); s == virtual.StatusOK {
@@ -271,11 +304,14 @@ func TestC13LockDropWindows(t *testing.T) {
 			}
 			c.Outcome = fmt.Sprint(opStatus)
 		case "bulkRemove", "virtualRemove":
-			// The pinned directory is never empty once its lock can be
-			// taken (the pinning call created a file in it), so removal
-			// before the mutation fails with ENOTEMPTY; after a mutation
-			// that moved it away the name is gone (ENOENT) or names a new
-			// empty directory (removal succeeds).
+			// Reference: the call ran either before or after the mutation.
+			// When its lock can finally be taken the pinned directory
+			// holds the file created by the pinning call (removal fails
+			// with ENOTEMPTY), unless that creation failed (PinFails: it
+			// is empty and can be removed). After a mutation that moved
+			// it away the name is gone (ENOENT) or names a new empty
+			// directory (removal succeeds and removes THAT directory; the
+			// old one lives on under its new name).
 			out := ""
 			if c.Op == "bulkRemove" {
 				out = fmt.Sprint(opErr)
@@ -284,11 +320,68 @@ func TestC13LockDropWindows(t *testing.T) {
 			}
 			c.Outcome = out
 			removed := (c.Op == "bulkRemove" && opErr == nil) || (c.Op == "virtualRemove" && opStatus == virtual.StatusOK)
+			movedAway := touched[c.Pinned] // the mutation renamed the pinned directory, which only works while it exists
+			_, nameAfter := after[c.Pinned]
 			if removed {
-				if c.Mutation != "replacePinned" {
+				switch {
+				case movedAway && !nameAfter:
+					rt.Fatalf("C13: removal of %s succeeded although the concurrent mutation, which succeeded, had renamed it away and nothing took its name; case=%+v", c.Pinned, c)
+				case !movedAway && !c.PinFails:
 					rt.Fatalf("C13: removal of non-empty directory %s succeeded; case=%+v", c.Pinned, c)
 				}
 				delete(after, c.Pinned)
+			} else if movedAway && nameAfter && c.Mutation == "replacePinned" {
+				// The name denotes the new, empty directory from the
+				// moment the mutation finished, which is before the call
+				// under test could continue: "not empty" can only be
+				// explained by the call having run entirely before the
+				// mutation, when the directory held the pinning file.
+				if c.PinFails {
+					rt.Fatalf("C13: removal of %s failed (%s) although both the old directory (the pinning file creation failed) and the new directory of that name are empty; case=%+v", c.Pinned, out, c)
+				}
+			}
+			if movedAway && (c.Mutation == "replacePinned" || c.Mutation == "renamePinnedOut") {
+				// The directory that was moved to root/g must be alive,
+				// whatever happened to the name it used to have.
+				g, s := tree.root.VirtualLookup(ctx, path.MustNewComponent("g"), virtual.AttributesMaskInodeNumber, &virtual.Attributes{})
+				if s != virtual.StatusOK {
+					rt.Fatalf("C13: the directory renamed to root/g cannot be looked up afterwards (%v); case=%+v", s, c)
+				}
+				gd, _ := g.GetPair()
+				if gd == nil {
+					rt.Fatalf("C13: root/g is not a directory; case=%+v", c)
+				}
+				var attr virtual.Attributes
+				if _, _, s := gd.VirtualMkdir(ctx, path.MustNewComponent("probe"), (&virtual.Attributes{}).SetPermissions(virtual.PermissionsRead), 0, &attr); s != virtual.StatusOK {
+					rt.Fatalf("C13: the directory renamed to root/g no longer accepts entries (%v): the removal of the name it used to have hit it; case=%+v", s, c)
+				}
+			}
+		case "renameOntoPinned":
+			// Reference: the source exists and the target is empty =>
+			// the rename succeeds; the target holds the pinning file =>
+			// "not empty"; the source was removed or renamed away by the
+			// mutation (which finished before the call could continue) =>
+			// ENOENT, or - if the call is taken to have run entirely
+			// before the mutation - the answer for the old state, provided
+			// that answer is a refusal (a successful rename would have made
+			// the mutation fail).
+			c.Outcome = fmt.Sprint(opStatus)
+			refusal := func(s virtual.Status) bool { return s == virtual.StatusErrNotEmpty || s == virtual.StatusErrExist }
+			sourceGone := touched["s"]
+			switch {
+			case !sourceGone && c.PinFails:
+				if opStatus != virtual.StatusOK {
+					rt.Fatalf("C13: rename of the empty directory s onto the empty directory %s returned %v; case=%+v", c.Pinned, opStatus, c)
+				}
+				delete(after, "s")
+			case !sourceGone:
+				if !refusal(opStatus) {
+					rt.Fatalf("C13: rename of s onto the non-empty directory %s returned %v; case=%+v", c.Pinned, opStatus, c)
+				}
+			default:
+				if !(opStatus == virtual.StatusErrNoEnt || (!c.PinFails && refusal(opStatus))) {
+					rt.Fatalf("C13: rename of s onto %s returned %v although s had been removed or renamed away meanwhile (pinned directory empty: %v); case=%+v", c.Pinned, opStatus, c.PinFails, c)
+				}
 			}
 		}
 		// Final tree.
